@@ -45,7 +45,7 @@ var cfgs = map[string]propCfg{
 	"C01": {
 		fields:  set("existence", "content", "size", "content-type", "bucket", "uploads", "range", "other"),
 		profile: vmodel.GeneralProfile,
-		stacksQ: []string{"sql", "fs", "zstd>tink>fs", "named", "ec21", "outbox>fs", "cache>fs"}, stacksT: allStacks,
+		stacksQ: []string{"sql", "fs", "zstd>tink>fs", "named", "ec21", "outbox>fs", "cache>fs", "gzip>fs"}, stacksT: allStacks,
 		histQ: 1, histT: 6, stepsQ: 70, stepsT: 300, snapEach: 25,
 		rule: "PRNG-generated sequential histories (bucket/object/copy/append/multipart/delete/tagging/versioning ops, 20% deliberately failing) executed in lock-step with the S3 reference model on each part-store stack; after every mutating step the touched keys are read back (GET) and compared (content, size, content type, absence); full API snapshot vs model every 25 steps and at the end. distinct = distinct (stack x op-kind bigram) pairs executed",
 	},
